@@ -588,9 +588,9 @@ type injectEvent struct {
 	H    int    `json:"h"`
 	I    int    `json:"i"`
 	N    int    `json:"items"` // items compared
-	Same bool   `json:"same"` // the run with injected queries returned what the plain run returned
-	A    string `json:"a"`    // first differing item, plain run
-	B    string `json:"b"`    // first differing item, run with injected queries
+	Same bool   `json:"same"`  // the run with injected queries returned what the plain run returned
+	A    string `json:"a"`     // first differing item, plain run
+	B    string `json:"b"`     // first differing item, run with injected queries
 }
 
 func runPrefix(hid int, p prefix, rng *rand.Rand, rec *Recorder, reps int) {
